@@ -376,6 +376,13 @@ impl<SVC: Service> CloudServer<SVC> {
             // If there's no snapshot, no further cleanup is possible.
             return Ok(());
         };
+        // Verification hook: a reproducible deletion order instead of hash-set iteration order.
+        #[cfg(gothenburgbitfactory_taskchampion_verif)]
+        let snapshots = {
+            let mut snapshots: Vec<_> = snapshots.into_iter().collect();
+            snapshots.sort();
+            snapshots
+        };
         for version in snapshots {
             if version != latest_snapshot {
                 self.service.del(&Self::snapshot_name(&version)).await?;
@@ -453,6 +460,8 @@ impl<SVC: Service + Send> Server for CloudServer<SVC> {
 
         // Invent a new version ID and upload the version data.
         let version_id = VersionId::new_v4();
+        #[cfg(gothenburgbitfactory_taskchampion_verif)]
+        let version_id = crate::server::verif::next_version_id().unwrap_or(version_id);
         let new_name = Self::version_name(&parent_version_id, &version_id);
         let sealed = self.cryptor.seal(Unsealed {
             version_id,
